@@ -157,6 +157,10 @@ def cases(draw, tier):
     else:
         case = draw(cases48(tier))
     case['out_fmt'] = out_fmt
+    # tap2sna without --start (48K only: a 128K load without --start legitimately stops in the 128K ROM's RAM-resident
+    # paging routines)
+    # and only with fast loading: once port reads by a loader are simulated the documented rule is 'stop at the end of the tape')
+    case['no_start'] = case['kind'] == '48' and case['load'].get('fast-load', 1) == 1 and draw(st.sampled_from([False, False, True]))
     return case
 
 
@@ -212,7 +216,7 @@ CAPTURE = {}
 
 def run_tap2sna(s, case, tape, load, outname='out.szx', capture=False):
     from skoolkit import tap2sna
-    argv = ['--start', case['start']]
+    argv = [] if case.get('no_start') else ['--start', case['start']]
     for k, v in load.items():
         argv += ['-c', '%s=%s' % (k, v)]
     argv += ['-c', 'timeout=%d' % (90 if case['kind'] == '48' and case.get('n', 0) <= 2000 else 1800)]   # Z80 seconds of tape time; a full 128K tape runs for ~13 minutes
@@ -239,7 +243,9 @@ def oracle(case, rec=None):
     with cli.Scratch('c12-') as s:
         tape, exp = build_tape(s, case)
         out, reason, stdout = run_tap2sna(s, case, tape, case['load'], 'out.' + case.get('out_fmt', 'szx'))
-        if reason != 'PC at start address':
+        # without --start the simulation stops when the tape has finished and the program counter is in RAM: for a
+        # bin2tap tape that is the moment the loader hands over to START
+        if reason != ('PC in RAM' if case.get('no_start') else 'PC at start address'):
             raise Violation('load-did-not-reach-start:%s' % (reason or 'none'), 'tap2sna %r ended with %r; stdout tail: %s' % (case['load'], reason, stdout[-200:]), case)
         from skoolkit.snapshot import Snapshot
         try:
